@@ -45,10 +45,10 @@ func (w *resetWatch) Func(ctx hooking.HookCtx) {
 }
 
 type taskInfo struct {
-	start, end         uint64
-	nStart, nEnd       int
-	kind, what, loc    string
-	startSeq, endSeq   int
+	start, end       uint64
+	nStart, nEnd     int
+	kind, what, loc  string
+	startSeq, endSeq int
 }
 
 // judgeTrace checks the well-formedness of a recorded trace at quiescence.
